@@ -1,6 +1,7 @@
 package main
 
 import (
+	"go/token"
 	"fmt"
 	"go/types"
 	"sort"
@@ -173,6 +174,21 @@ func (f *Frame) enterLoop(li *loopInfo, cur *State, r string) (*State, string) {
 		}
 		if f.hasFrame {
 			c.assume(rh, c.frameFormula(k, c.heapTerm(f.entry, k), nh, c.nextRef(f.entry), f.fnObjs[k]))
+		}
+	}
+	// a variable that lives on the heap only because a closure reads it, and that is written exactly once (where it
+	// is declared), keeps its value: nobody else has its address
+	for _, a := range f.writeOnceBoxes() {
+		ref, ok := f.regs[a]
+		if !ok || !li.header.Dominates(li.header) {
+			continue
+		}
+		if a.Block() == nil || !a.Block().Dominates(li.header) || li.blocks[a.Block()] {
+			continue
+		}
+		k := c.eng.boxKey(a.Type().(*types.Pointer).Elem())
+		if old, ok := li.entryHeap[k]; ok {
+			c.assume(rh, "(= (select "+st.heap[k]+" "+ref.T+") (select "+old+" "+ref.T+"))")
 		}
 	}
 	// ghost variables that a call in the loop body may change (through a contract's modifies / defines) are havocked too
@@ -539,4 +555,81 @@ func paramNameOf(v ssa.Value) string {
 		}
 	}
 	return ""
+}
+
+
+// writeOnceBoxes: heap-allocated scalar variables of the function whose only store is their initialisation and whose
+// address is used for nothing but loads, here and in the closures that capture it.
+func (f *Frame) writeOnceBoxes() []*ssa.Alloc {
+	if f.wobDone {
+		return f.wob
+	}
+	f.wobDone = true
+	onlyLoads := func(v ssa.Value, allowStores int) bool {
+		stores := 0
+		refs := v.Referrers()
+		if refs == nil {
+			return false
+		}
+		for _, r := range *refs {
+			switch x := r.(type) {
+			case *ssa.UnOp:
+				if x.Op != token.MUL {
+					return false
+				}
+			case *ssa.Store:
+				if x.Addr != v || x.Val == v {
+					return false
+				}
+				stores++
+			case *ssa.DebugRef:
+			case *ssa.MakeClosure:
+			default:
+				return false
+			}
+		}
+		return stores <= allowStores
+	}
+	for _, b := range f.fn.Blocks {
+		for _, ins := range b.Instrs {
+			a, ok := ins.(*ssa.Alloc)
+			if !ok || !a.Heap {
+				continue
+			}
+			et := a.Type().(*types.Pointer).Elem()
+			if _, isStruct := et.Underlying().(*types.Struct); isStruct {
+				continue
+			}
+			if _, isArr := et.Underlying().(*types.Array); isArr {
+				continue
+			}
+			if !onlyLoads(a, 1) {
+				continue
+			}
+			ok2 := true
+			for _, r := range *a.Referrers() {
+				mc, isMC := r.(*ssa.MakeClosure)
+				if !isMC {
+					continue
+				}
+				cf, _ := mc.Fn.(*ssa.Function)
+				if cf == nil {
+					ok2 = false
+					break
+				}
+				for bi, bv := range mc.Bindings {
+					if bv != a {
+						continue
+					}
+					if bi >= len(cf.FreeVars) || !onlyLoads(cf.FreeVars[bi], 0) {
+						ok2 = false
+					}
+				}
+			}
+			if ok2 {
+				f.wob = append(f.wob, a)
+			}
+		}
+	}
+	return f.wob
 }
